@@ -144,6 +144,9 @@ Definition wf_k (k : cont) : Prop :=
 Definition okout (o : outcome) : Prop := match o with Done r => clean r | Block k => wf_k k end.
 Definition clean_obs (b : obs) : Prop := match b with ObDone r => clean r | _ => True end.
 
+Lemma okout_block k s : wf_k k -> okout (snd (block k s)).
+Proof. intros H. unfold block. destruct (wait_exc s); cbn [snd okout]; [exact I|exact H]. Qed.
+
 Lemma clean_finish e ok d : e = SOk -> clean ok -> clean (finish e ok d).
 Proof. intros -> H. exact H. Qed.
 
@@ -152,7 +155,7 @@ Proof. unfold set_chunk_size. destruct (chunk_size_raises _ _); reflexivity. Qed
 
 Lemma k_read_ok n s : n = -1 \/ 0 <= n -> okout (snd (k_read n s)).
 Proof.
-  intros Hn. unfold k_read. destruct (need_wait s); [exact Hn|].
+  intros Hn. unfold k_read. destruct (need_wait s); [apply okout_block; exact Hn|].
   pose proof (read_nowait_ok n s Hn) as [A _]. destruct (read_nowait n s) as [[s1 d] e]. cbn [snd] in *.
   apply clean_finish; [exact A|exact I].
 Qed.
@@ -160,7 +163,7 @@ Qed.
 Lemma k_readall_ok fuel : forall acc s, ICP s -> (M s < fuel)%nat -> okout (snd (k_readall fuel acc s)).
 Proof.
   induction fuel as [|fuel IH]; intros acc s H Hf; [lia|]. rewrite k_readall_eq.
-  destruct (need_wait s); [exact I|].
+  destruct (need_wait s); [apply okout_block; exact I|].
   pose proof (read_nowait_ok (-1) s (or_introl eq_refl)) as [A _].
   pose proof (read_nowait_progress (-1) s (proj1 H) (or_introl eq_refl)) as Hp.
   pose proof (ICP_read_nowait (-1) s H) as H1.
@@ -173,7 +176,7 @@ Qed.
 Lemma k_until_ok fuel : forall sep m acc s, ICP s -> (M s < fuel)%nat -> okout (snd (k_until fuel sep m acc s)).
 Proof.
   induction fuel as [|fuel IH]; intros sep m acc s H Hf; [lia|]. rewrite k_until_eq.
-  destruct (buf s) as [|f r] eqn:Eb; [destruct (eof s); exact I|].
+  destruct (buf s) as [|f r] eqn:Eb; [destruct (eof s); [exact I|apply okout_block; exact I]|].
   destruct (find_sub sep f).
   - destruct (rnc _ f r s). cbv zeta. destruct (line_too_long _ _); exact I.
   - pose proof (rnc_measure (-1) f r s (or_intror eq_refl) Eb) as Hm.
@@ -186,7 +189,7 @@ Qed.
 Lemma k_exactly_ok fuel : forall n acc s, ICP s -> 1 <= n -> (M s < fuel)%nat -> okout (snd (k_exactly fuel n acc s)).
 Proof.
   induction fuel as [|fuel IH]; intros n acc s H Hn Hf; [lia|]. rewrite k_exactly_eq.
-  destruct (need_wait s); [exact Hn|].
+  destruct (need_wait s); [apply okout_block; exact Hn|].
   assert (Hn0 : 0 <= n) by lia.
   pose proof (read_nowait_ok n s (or_intror Hn0)) as [A _].
   pose proof (read_nowait_progress n s (proj1 H) (or_intror Hn)) as Hp.
@@ -202,7 +205,7 @@ Lemma k_readchunk_ok s : ICP s -> okout (snd (k_readchunk s)).
 Proof.
   intros H. unfold k_readchunk. destruct (exc s); [exact I|].
   destruct (splits s) as [l|] eqn:El.
-  2: { destruct (buf s) as [|f r]; [destruct (eof s); exact I|]. destruct (rnc (-1) f r s). exact I. }
+  2: { destruct (buf s) as [|f r]; [destruct (eof s); [exact I|apply okout_block; exact I]|]. destruct (rnc (-1) f r s). exact I. }
   destruct (pop_splits (cursor s) l) as [found l'] eqn:Ep.
   destruct found as [p|].
   - destruct (pop_splits_In _ _ _ _ Ep) as [_ Hpc].
@@ -211,7 +214,7 @@ Proof.
     pose proof (read_nowait_ok (p - cursor s) (set_splits s (Some l')) (or_intror Hn0)) as [A _].
     destruct (read_nowait (p - cursor s) (set_splits s (Some l'))) as [[s1 d] e]. cbn [snd] in *.
     apply clean_finish; [exact A|exact I].
-  - destruct (buf (set_splits s (Some l'))) as [|f r]; [destruct (eof _); exact I|].
+  - destruct (buf (set_splits s (Some l'))) as [|f r]; [destruct (eof _); [exact I|apply okout_block; exact I]|].
     destruct (rnc (-1) f r _). exact I.
 Qed.
 
@@ -277,7 +280,7 @@ Proof.
   { clear. induction ops as [|o ops IH]; intros y Hy Hw; [constructor|]. cbn [run].
     pose proof (step_clean o y Hy Hw) as [A B].
     pose proof (step_SysP Inv Inv_feed Inv_begin Inv_end Inv_eof Inv_exc Inv_pend Inv_consume_resume Inv_marks
-                  (fun s H _ _ _ => Inv_wt s Waiting H) (fun s H => Inv_wt s NoTask H) Inv_pop Inv_unread o y Hy) as Hy1.
+                  (fun s H _ _ _ _ => Inv_wt s Waiting H) (fun s H => Inv_wt s NoTask H) Inv_pop Inv_unread o y Hy) as Hy1.
     destruct (step o y) as [y1 b]. cbn [fst snd] in *. specialize (IH y1 Hy1 B).
     destruct (run ops y1) as [y2 bs]. cbn [snd] in *. constructor; assumption. }
   apply H.
